@@ -276,7 +276,12 @@ fn is_extreme(k: Kind, t: &str) -> bool {
     }
 }
 
-const BAD: &[&str] = &["abc", "", "-", "1.5x", "%FF", "%C3%28", "99999999999999999999999999999999999999999999", "tru", "١٢"];
+const BAD: &[&str] = &[
+    "abc", "", "-", "1.5x", "%FF", "%C3%28", "99999999999999999999999999999999999999999999", "tru", "١٢",
+    // undecodable bytes *after* valid escapes and raw multi-byte characters (offsets into the decoded bytes differ
+    // from offsets into the raw text)
+    "%20€%FF", "%41é€%FF", "a%2Fb😀%80", "%E6%97%A5本%C3", "café%FF", "%2F%2F%2F日本語%80%80",
+];
 
 const CT_TYPES: &[&str] = &["application", "text", "model", "image", "multipart"];
 const CT_SUB: &[&str] = &["json", "x-www-form-urlencoded", "ld", "vnd.api", "gltf", "plain", "xml"];
@@ -445,7 +450,7 @@ fn run(c: &Case) -> CaseResult {
             let i = *i as usize % fields.len();
             let bad = BAD[*b as usize % BAD.len()];
             let k = fields[i].1;
-            let is_pct = bad.starts_with('%') && c.channel != Channel::Json;
+            let is_pct = bad.contains('%') && c.channel != Channel::Json;
             let stringy = matches!(k, Kind::Str | Kind::OptStr | Kind::VecStr);
             let invalid_for_kind = match k {
                 Kind::U8 => bad.parse::<u8>().is_err(),
@@ -838,7 +843,12 @@ fn scalar(k: Kind) -> BoxedStrategy<Vec<String>> {
         Kind::OptU32 => prop_oneof![1 => Just(vec![]), 3 => any::<u32>().prop_map(|v| vec![v.to_string()])].boxed(),
         Kind::OptU8 => any::<u8>().prop_map(|v| vec![v.to_string()]).boxed(),
         Kind::VecStr => prop::collection::vec(interesting_string(), 1..4).boxed(),
-        Kind::VecU16 => prop::collection::vec(any::<u16>().prop_map(|v| v.to_string()), 1..4).boxed(),
+        // (mostly short; now and then around a thousand elements: sizes are part of "keeps its value")
+        Kind::VecU16 => prop_oneof![
+            24 => prop::collection::vec(any::<u16>().prop_map(|v| v.to_string()), 1..4),
+            1 => prop::collection::vec(any::<u16>().prop_map(|v| v.to_string()), 990..1300),
+        ]
+        .boxed(),
     }
 }
 
